@@ -3,10 +3,10 @@ SPEC = {
     "id": "C13",
     "coq_targets": ["theories/Network/Props_C13.vo", "theories/Network/Findings.vo", "theories/Network/Cases.vo"],
     "props": "theories/Network/Props_C13.v",
-    "harness": [{"bin": "h_network", "n": {"quick": 900, "thorough": 6400}, "args": ["--mode", "c13"],
+    "harness": [{"bin": "h_network", "n": {"quick": 1080, "thorough": 7600}, "args": ["--mode", "c13"],
                  "known_bits": {16: "C13-shortcut-rejected", 32: "C13-peering-unsupported", 64: "C13-peer-link-segment-change", 128: "C13-onehop-unchecked"}}],
     "shard_eval": "coqtop",
-    "rule": "pocketscion topologies (directed shortcut/peering/on-path/multi-core/two-ISD shapes, multi-ISD shapes with AS numbers repeated across ISDs, sampled small DAG family with permuted interface numbering, random up to 12 [20] ASes); every case = topology + packet + clock + injection point; packets are offered paths, reverses of arrived packets, lifetime cases (an offered path minted anew with a different timestamp per segment and ExpTime from {0,1,2,63,127,254,255,random}; clock at the last second of the lifetime by the specification formula ts + floor((ExpTime+1)*337.5 s), one second before and after, and around the youngest timestamp; oracle: arrives iff inside Spec.spec_time_ok for every hop field), and mutated ones (single-field corruptions, spliced/recombined authentic hop fields, link down, clock around timestamp/expiry, wrong ingress point, mid-path injection, pointers, destination; per topology attacker-spliced segment changes from authentic hop fields for every realizable ordered pair of arrival/departure link types, core->core first; >64 hop fields at CurrHF 63; one-hop paths); non-trivial = at least 2 hop fields; distinct by full case text",
+    "rule": "pocketscion topologies (directed shortcut/peering/on-path/multi-core/two-ISD shapes, multi-ISD shapes with AS numbers repeated across ISDs, sampled small DAG family with permuted interface numbering, random up to 12 [20] ASes); every case = topology + packet + clock + injection point; packets are offered paths, reverses of arrived packets, lifetime cases (an offered path minted anew with a different timestamp per segment and ExpTime from {0,1,2,63,127,254,255,random}; clock at the last second of the lifetime by the specification formula ts + floor((ExpTime+1)*337.5 s), one second before and after, and around the youngest timestamp; oracle: arrives iff inside Spec.spec_time_ok for every hop field), address cases (an offered path without peering whose DESTINATION ISD-AS is rewritten to the right one / another existing AS / the source AS / the same AS number in another ISD / 0-<as> / <isd>-0 / 0-0, and the same forms in the SOURCE field, which the router never reads; oracle: delivered nowhere by implementation and reference router unless the destination EQUALS the AS the path ends in -- Spec.spec_local_dst, wildcards are not addresses), and mutated ones (single-field corruptions, spliced/recombined authentic hop fields, link down, clock around timestamp/expiry, wrong ingress point, mid-path injection, pointers, destination incl. wildcard forms; per topology attacker-spliced segment changes from authentic hop fields for every realizable ordered pair of arrival/departure link types, core->core first; >64 hop fields at CurrHF 63; one-hop paths); non-trivial = at least 2 hop fields; distinct by full case text",
     "assumptions": ["structural packets: well-formed standard paths (1..3 non-empty segments); byte-level malformed encodings are C11/C12's domain",
                     "ignore_macs = false; empty paths are not modelled; one-hop paths: router modelled as written (no checks), see finding C13-onehop-unchecked"],
 }
